@@ -41,6 +41,9 @@ type C19Scenario struct {
 	// same LastOffset, an error exactly where Apply rejects an event), and the bus must still take publishes
 	// after a replay that an unappliable event cut short.
 	Split int `json:"split"`
+	// Strict: the materializers are built with WithStrictSchema: a change for an unregistered entity type is an
+	// error - one that, like every rejected event, leaves the collections and LastOffset as they were
+	Strict bool `json:"strict,omitempty"`
 }
 
 var c19Keys = []string{"k", "a/b", "ключ", "with space", "/", "k\"q", "0"}
@@ -66,6 +69,7 @@ func genC19(rt *rapid.T) core.Scenario {
 	if rapid.IntRange(0, 5).Draw(rt, "long") == 5 {
 		n = rapid.IntRange(10, 30).Draw(rt, "nMsgsLong")
 	}
+	sc.Strict = rapid.IntRange(0, 2).Draw(rt, "strict") == 2
 	sc.Split = -1
 	if sc.Store.Kind != "ds" && rapid.IntRange(0, 2).Draw(rt, "twoLegs") > 0 {
 		sc.Split = rapid.IntRange(0, n).Draw(rt, "split")
@@ -212,7 +216,7 @@ func corruptBytes(data []byte, m C19Msg, other []byte) []byte {
 
 // c19Model applies what the bytes decode to under the state protocol, independently of the implementation.
 // ok=false: the bytes do not form an applicable message (an error is the only acceptable outcome besides no change).
-func c19Model(cur map[string]string, data []byte, known map[string]string) (next map[string]string, ok bool) {
+func c19Model(cur map[string]string, data []byte, known map[string]string, strict bool) (next map[string]string, ok bool) {
 	next = map[string]string{}
 	for k, v := range cur {
 		next[k] = v
@@ -254,6 +258,9 @@ func c19Model(cur map[string]string, data []byte, known map[string]string) (next
 	}
 	coll, registered := known[msg.Type]
 	if !registered {
+		if strict {
+			return cur, false // strict schema: an unknown entity type is rejected
+		}
 		return next, true // non-strict: unregistered entity types change nothing
 	}
 	ck := coll + "|" + compositeKey(msg.Type, msg.Key)
@@ -337,7 +344,7 @@ func (sc *C19Scenario) Execute(t *testing.T) *core.Outcome {
 		ctx := context.Background()
 		var built []*state.ChangeMessage
 		// ---- C: a materializer fed by Replay in two legs against one fed event by event
-		fed, ref := newC18Mat(false), newC18Mat(false)
+		fed, ref := newC18Mat(sc.Strict), newC18Mat(sc.Strict)
 		leg := func(name string) bool {
 			from := fed.m.LastOffset()
 			if from != ref.m.LastOffset() {
@@ -392,7 +399,7 @@ func (sc *C19Scenario) Execute(t *testing.T) *core.Outcome {
 		}
 		known := map[string]string{entName(SUser{}): "user", entName(SOrder{}): "order", entName(SNamed{}): "named",
 			entName([]string{}): "tags", entName(map[string]int{}): "counts"}
-		mat := newC18Mat(false)
+		mat := newC18Mat(sc.Strict)
 		for i, m := range sc.Msgs {
 			ev := *stored[i]
 			// ---- A: the wire format, as stored
@@ -463,7 +470,7 @@ func (sc *C19Scenario) Execute(t *testing.T) *core.Outcome {
 			}
 			after := mat.snapshot()
 			rec.Add("apply", i, len(ev.Data), fmt.Sprint(applyErr != nil))
-			wantState, applicable := c19Model(linesToMap(before), ev.Data, known)
+			wantState, applicable := c19Model(linesToMap(before), ev.Data, known, sc.Strict)
 			switch {
 			case applyErr != nil:
 				if m.Corrupt == "" && m.Type == "" { // (an entity type override may name another entity's collection)
